@@ -94,7 +94,7 @@ func goParses(src string) bool {
 
 func init() {
 	register("C18", func(c *engine.Ctx) {
-		c.Rule = "the CLI binary built from /repo, run in an empty sandbox directory: (1) valid schemas with one ungeneratable element (unknown type, missing definition, missing file, bad pointer, empty enum, non-primitive enum, typed integer enum with an object / a string member) injected at every kind of position (property, nested, array item, definition, unreferenced definition, allOf/anyOf branch, branch given by $ref, additionalProperties, and — for enum faults — next to a valid twin that owns the same Go type name and is generated first: definition/definition, property/sibling, property/definition) x output to stdout or to a file x option sets (--only-models, --min-sized-ints, -e, --struct-name-from-title, --tags, combined; one in rotation per case, all in the thorough tier); (2) malformed file contents (truncated, wrongly typed keywords, null in every position, YAML junk, empty, binary); (3) missing files, directories, malformed and unknown flags, no arguments, no package. Judged: exit 0 with complete parsable output, or non-zero exit with a diagnostic on stderr, nothing on stdout, no file created or modified; an ungeneratable element always fails the run; never a panic trace or a hang. In-process: mutated schemas through DoFile/Sources under recover() with a timeout. Distinct = distinct (case kind, position, output mode, outcome)."
+		c.Rule = "the CLI binary built from /repo, run in an empty sandbox directory: (1) valid schemas with one ungeneratable element (unknown type, missing definition, missing file, bad pointer, empty enum, non-primitive enum, typed integer enum with an object / a string member) injected at every kind of position (property, nested, array item, definition, unreferenced definition, allOf/anyOf branch, branch given by $ref, additionalProperties, and — for enum faults — next to a valid twin that owns the same Go type name and is generated first: definition/definition, property/sibling, property/definition) x output to stdout or to a file x option sets (--only-models, --min-sized-ints, -e, --struct-name-from-title, --tags, combined; one in rotation per case, all in the thorough tier) x routings of the faulty schema (mapped to a package of its own without an output file, alone / after / before a good schema; mapped to a file of its own; only its root type named; one in rotation per case, all in the thorough tier); (2) malformed file contents (truncated, wrongly typed keywords, null in every position, YAML junk, empty, binary); (3) missing files, directories, malformed and unknown flags, no arguments, no package. Judged: exit 0 with complete parsable output, or non-zero exit with a diagnostic on stderr, nothing on stdout, no file created or modified; an ungeneratable element always fails the run; never a panic trace or a hang. In-process: mutated schemas through DoFile/Sources under recover() with a timeout. Distinct = distinct (case kind, position, output mode, outcome)."
 		c.Proofs([]string{"GJS.Props.C18"}, []string{
 			"GJS.Props.C18.cli_generation_error_writes_nothing", "GJS.Props.C18.cli_flag_error_writes_nothing", "GJS.Props.C18.cli_success_writes_all",
 			"GJS.Props.C18.flag_without_equals_rejected", "GJS.Props.C18.flag_with_equals_accepted", "GJS.Props.C18.unknown_type_fails",
@@ -133,6 +133,27 @@ func init() {
 					}
 					args := append(append([]string{"-p", "x", "-o", "out/gen.go"}, os...), "s.json")
 					cases = append(cases, cliCase{kind, inj.name + " " + strings.Join(os, " "), map[string]string{"s.json": content}, args, true, ""})
+				}
+				// … and wherever the schema is routed: mapped to a package of its own without an output file ("its types
+				// live elsewhere": nothing of it is written, but it is still an input that cannot be generated), alone or
+				// next to a good schema; mapped to a file of its own; only its root type named
+				goodMain := `{"$id":"urn:good","type":"object","properties":{"a":{"type":"string"}}}`
+				routeSets := []struct {
+					name  string
+					files map[string]string
+					args  []string
+				}{
+					{"external-alone", map[string]string{"s.json": content}, []string{"-p", "example.com/m/x", "--schema-package", "urn:c18=example.com/m/other", "s.json"}},
+					{"external-next-to-good", map[string]string{"good.json": goodMain, "s.json": content}, []string{"-p", "example.com/m/x", "-o", "out/gen.go", "--schema-package", "urn:c18=example.com/m/other", "good.json", "s.json"}},
+					{"external-before-good", map[string]string{"good.json": goodMain, "s.json": content}, []string{"-p", "example.com/m/x", "-o", "out/gen.go", "--schema-package", "urn:c18=example.com/m/other", "s.json", "good.json"}},
+					{"own-file", map[string]string{"good.json": goodMain, "s.json": content}, []string{"-p", "example.com/m/x", "-o", "out/gen.go", "--schema-package", "urn:c18=example.com/m/other", "--schema-output", "urn:c18=other/bad.go", "good.json", "s.json"}},
+					{"root-type-only", map[string]string{"s.json": content}, []string{"-p", "example.com/m/x", "-o", "out/gen.go", "--schema-root-type", "urn:c18=Named", "s.json"}},
+				}
+				for ri, rs := range routeSets {
+					if !c.Thorough() && ri != len(cases)%len(routeSets) {
+						continue
+					}
+					cases = append(cases, cliCase{kind, inj.name + " routed:" + rs.name, rs.files, rs.args, true, ""})
 				}
 				if c.Thorough() {
 					cases = append(cases, cliCase{kind, inj.name, map[string]string{"good.json": `{"$id":"urn:good","type":"object","properties":{"a":{"type":"string"}}}`, "s.json": content},
